@@ -21,6 +21,12 @@ CLAIMS = {
  "C15": dict(technique="TLC-generated corpora replayed in six binaries {prod,asan}x{avx2,sse,dyn}; per-input digests compared",
    text="Every text of the TLC corpora (byte strings, tokens, values, strings, mutants, deep nesting) is parsed in the six builds; the digest (accepted?, error class unless the R-model fault is inside a string, accessor-walk hash, Dump hash) must be identical across binaries, and an oracle failure shown by only some builds is a disagreement. The R-models do not mention the vector width, so the specified result is configuration independent by construction.",
    note="Runtime dispatch resolves to the AVX2 clones on this CPU; the SSE clones are exercised only by the static build.", ref="4/C15"),
+ "C10": dict(technique="TLC enumeration of (text, path) with JsonValue!Lookup + replay into GetOnDemand / ParseOnDemand / AtPointer",
+   text="TLC enumerates rendered syntax trees (incl. empty containers, escaped and duplicate keys, strings containing brackets/quotes/commas, 65-space runs) x whitespace layouts x paths derived from the denoted value (present/absent/raw-spelling keys, indices 0,1,2,size-1,size,-1, wrong-kind steps, depth 2-3) with the expected JsonValue!Lookup; each case is replayed through GetOnDemand (heap, page-end and page-start buffers), Document::ParseOnDemand and AtPointer at 6-71 alignments in 3-6 builds: success iff Lookup is defined, slice inside the input and denoting the expected value, empty slice and non-zero code otherwise.",
+   note="Trusted: JsonValue!Lookup over JsonText!Denote; harness/rt_ondemand.cpp.", ref="4/C10"),
+ "C11": dict(technique="TLC-generated byte strings (all strings to a bound, tokens, every prefix/mutant of valid texts) replayed on unpadded exact-size and guard-page buffers",
+   text="TLC supplies the inputs (every byte string up to a bound over a 16-symbol alphabet incl. the empty string, token sequences with junk tokens, every proper prefix and single-byte mutant of valid texts, string literals with specials at block offsets) x 8 paths; GetOnDemand runs on an exact-size heap block under ASan and, in production builds, on a buffer ending at a page end before PROT_NONE and on one starting at a page start after PROT_NONE; violation = fault / sanitizer report, success with a slice outside the input or offset > len, or a result that depends on the placement.",
+   note="Out-of-range reads are observed by ASan and guard pages, not by TLC (DESIGN section 6).", ref="4/C11, 6"),
 }
 
 def main():
